@@ -11,6 +11,8 @@ import XV.Driver.Trace
 import XV.Driver.Ext
 import XV.Driver.Uri
 import XV.Driver.XInclude
+import XV.Driver.Ledger
+import XV.Driver.Dom
 open XV.Driver
 
 def main (args : List String) : IO UInt32 := do
@@ -34,5 +36,12 @@ def main (args : List String) : IO UInt32 := do
   | ["extgate"] => lineLoop stdin stdout XV.Driver.Ext.handle; return 0
   | ["uri"] => lineLoop stdin stdout XV.Driver.Uri.handle; return 0
   | ["xinclude"] => lineLoop stdin stdout XV.Driver.XInclude.handle; return 0
+  | ["ledger"] => lineLoop stdin stdout XV.Driver.Ledger.handle; return 0
+  | ["lifecycle"] => lineLoop stdin stdout XV.Driver.Ledger.handleL; return 0
+  | ["arena"] => lineLoop stdin stdout XV.Driver.Ledger.handleA; return 0
+  | ["arenaspec"] => lineLoop stdin stdout XV.Driver.Ledger.handleASpec; return 0
+  | ["dom"] => lineLoopS stdin stdout (XV.Model.Dom.init 0) (XV.Driver.Dom.handle 0); return 0
+  | ["domfull"] => lineLoopS stdin stdout (XV.Model.Dom.init 0) (XV.Driver.Dom.handle 1); return 0
+  | ["domgen"] => XV.Driver.Dom.loopFlush stdin stdout 2 (XV.Model.Dom.init 0); return 0
   | ["utf8spec"] => lineLoop stdin stdout XV.Driver.Utf8.handleSpec; return 0
   | _ => IO.eprintln "usage: xvdriver <area>"; return 2
